@@ -9,7 +9,7 @@ package main
 //   res                  class of the last call: ok | e<api error code> | deep      (model only)
 //   startcall M ARGS...  real NtfnsHandler.Start(), the call right after it, Stop(), reopen   -> done | PANIC …
 //   rmrun W              run the queued removal of W to completion (asyncRemove)      -> ok | err
-//   impstep W            one asyncImport batch of W                                    -> fin | more | err
+//   impstep W            follower catches up with the node's tip, then one asyncImport batch of W -> fin | more | retry | err
 //   cur                  symbolic name of the wallet in use, "-" if none
 //   x OP...              robust mode: run OP (any op above or a base op), output only done | PANIC … | HANG
 //   tx …                 as in led, amounts scaled by 10^6 (so that fees and dust limits are reachable)
@@ -710,8 +710,15 @@ func (x *apiExec) exec1(a []string) string {
 		e.wm.VerifDrainTasks()
 		out := ""
 		if p := apiGuarded(func() {
+			// asyncImport scans only while the follower is on the node's branch (otherwise "retry later"):
+			// tell the follower about the node's tip first, as the running node would have done by now
+			if _, bhash := e.wm.VerifBestBlock(); bhash != e.Tip().hash {
+				e.wm.VerifProcessBlock(e.Tip().msg)
+			}
 			fin, err := e.wm.VerifImportStep(id)
 			switch {
+			case err == masswallet.ErrImportingContinuable:
+				out = "retry"
 			case err != nil:
 				out = errTok(err)
 			case fin:
